@@ -40,15 +40,19 @@ std::vector<float> blendPlacement(const std::vector<float> &v1,
 
 /**
  * Stop if the continuous model returned non-finite coordinates (overflow of
- * the penalty or divergence of the solver): converting them to integers
- * later on would be undefined behaviour
+ * the penalty or divergence of the solver) or coordinates far outside of any
+ * supported design: converting them to integers later on would be undefined
+ * behaviour
  */
 void checkFinitePlacement(const std::vector<float> &placement) {
+  // Far beyond the supported coordinates (a few millions), yet small enough
+  // for the integer arithmetic of the following steps
+  const float maxCoordinate = 268435456.0f;  // 2^28
   for (float p : placement) {
-    if (!std::isfinite(p)) {
+    if (!std::isfinite(p) || std::abs(p) > maxCoordinate) {
       throw std::runtime_error(
           "Global placement diverged: the continuous model returned a "
-          "non-finite cell position");
+          "non-finite or out-of-range cell position");
     }
   }
 }
